@@ -870,16 +870,24 @@ _dispatch_timer_unote_configure(dispatch_timer_source_refs_t dt)
 {
 	dispatch_timer_config_t dtc;
 
-	dtc = os_atomic_xchg2o(dt, dt_pending_config, NULL, dependency);
+	// Clear any pending data that might have accumulated on
+	// older timer params <rdar://problem/8574886>
+	//
+	// This has to happen before the pending configuration is taken:
+	// _dispatch_timers_run() calls us without the drain lock of the source,
+	// and a concurrent _dispatch_source_invoke2() on the target queue that
+	// no longer sees a pending configuration must not find data of the older
+	// params to deliver. Only the thread running the timers stores non-zero
+	// pending data for an armed timer, and this is that thread (or the timer
+	// is not armed), so nothing can accumulate between the two steps.
+	os_atomic_store2o(dt, ds_pending_data, 0, relaxed);
+	dtc = os_atomic_xchg2o(dt, dt_pending_config, NULL, acq_rel);
 	if (dtc->dtc_clock != _dispatch_timer_flags_to_clock(dt->du_timer_flags)) {
 		dt->du_timer_flags &= ~_DISPATCH_TIMER_CLOCK_MASK;
 		dt->du_timer_flags |= _dispatch_timer_flags_from_clock(dtc->dtc_clock);
 	}
 	dt->dt_timer = dtc->dtc_timer;
 	free(dtc);
-	// Clear any pending data that might have accumulated on
-	// older timer params <rdar://problem/8574886>
-	os_atomic_store2o(dt, ds_pending_data, 0, relaxed);
 
 	if (_dispatch_unote_armed(dt)) {
 		return _dispatch_timer_unote_resume(dt);
